@@ -3,6 +3,7 @@ CONSTANTS
   FlagNames = {"a", "b", "c"}
   MaxTok = 3
   LitChars = {}
+  AllUserSets = FALSE
   Export = FALSE
 INVARIANT TypeOK
 INVARIANT AcyclicReachesExpansion
